@@ -5,4 +5,5 @@ INVARIANT TypeSame
 INVARIANT ConstraintsSame
 INVARIANT SymbolicEvaluates
 INVARIANT OriginalUnchanged
+INVARIANT PythonEqual
 CHECK_DEADLOCK FALSE
